@@ -204,6 +204,29 @@ def replay_case(case, tag, rng, tier):
             elif any(type(g) is not PYTYPE[tname] for g in got):
                 bad("C18.type", "%s on %s coordinates returned components of type %s" % (op, tname, [type(g).__name__ for g in got]),
                     {"op": op, "type": tname, "what": "type"})
+    # (2b) two vectors of different coordinate types for which Python's arithmetic is defined: the component formulas evaluated by
+    #      Python on the raw components give the exact value AND the type (e.g. Decimal with int stays Decimal, never float)
+    for ta, tb in (("int", "fraction"), ("fraction", "int"), ("int", "decimal"), ("decimal", "int"), ("int", "float"), ("float", "int"),
+                   ("fraction", "float"), ("int", "user"), ("user", "int"), ("user", "fraction")):
+        ca, cb = [CONV[ta](x) for x in a], [CONV[tb](x) for x in b]
+        va, vb = Vector(*ca), Vector(*cb)
+        formulas = {"add": [x + y for x, y in zip(ca, cb)], "sub": [x - y for x, y in zip(ca, cb)],
+                    "dot": [ca[0] * cb[0] + ca[1] * cb[1] + ca[2] * cb[2]],
+                    "cross": [ca[1] * cb[2] - ca[2] * cb[1], ca[2] * cb[0] - ca[0] * cb[2], ca[0] * cb[1] - ca[1] * cb[0]]}
+        ops = {"add": lambda: list(va + vb), "sub": lambda: list(va - vb), "dot": lambda: [va * vb], "cross": lambda: list(va.cross(vb))}
+        for op, f in ops.items():
+            got, exc = call(f)
+            out["calls"] += 1
+            sig = {"op": op, "type": ta + "+" + tb, "what": "mixed"}
+            if exc is not None:
+                bad("C18.raises", "%s on %s and %s vectors raised %s" % (op, ta, tb, exc["cls"]), sig)
+                continue
+            want = formulas[op]
+            if len(got) != len(want) or any(not (g.same(w) if isinstance(g, Poly) else (not isinstance(w, Poly) and g == w)) for g, w in zip(got, want)):
+                bad("C18.value", "%s on %s and %s vectors gave %r, component formula %r" % (op, ta, tb, got, want), sig)
+            elif any(type(g) is not type(w) for g, w in zip(got, want)):
+                bad("C18.type", "%s on %s and %s vectors returned components of type %s, the component formula gives %s" % (
+                    op, ta, tb, [type(g).__name__ for g in got], [type(w).__name__ for w in want]), sig)
     # (3) length, normalized/unit, angle over magnitudes 1e-6 .. 1e6
     if case["len2"] > 0:
         for tname in ("int", "float", "fraction"):
